@@ -26,7 +26,7 @@ PROPS = {
         explanation="Theorems: ring invariant over all call sequences, primary stability, refusal cases, rotation safety for every cluster size and interleaving; tie: differential run of the real Keyring against the model.",
     ),
     "C10": dict(
-        lean_modules=["Swim.Props.C10"],
+        lean_modules=["Swim.Props.C10", "Swim.Props.C10Prefer"],
         tests="^TestC10$",
         rule=("random sequences of 1-40 QueueBroadcast (named incl. empty name / unique / plain with subjects; sizes 0-40 incl. equal) / "
               "GetBroadcasts (overhead -1..3, limit -5..1400) / Prune (-1..5) / Reset / NumQueued with changing NumNodes and RetransmitMult 0-8, "
@@ -36,7 +36,7 @@ PROPS = {
                                   "math.Log10/Ceil in retransmitLimit (compared with mult*digits(n) on sampled n, not proved)"],
         assumptions=["ids and transmit counters do not wrap (int64)", "queue mutex serialises calls"],
         level_text=("Proof: Lean theorems for every operation sequence (ids unique, one broadcast per name, conservation = no silent loss and "
-                    "exactly-once completion, get_fits, limit_exact, Less-least selection) about a model of queue.go, tied to the code by a "
+                    "exactly-once completion, get_fits, limit_exact, Less-least selection; C10_get_prefers: over the whole walk of one retrieval, at every hand-out the item is the Less-least of its tier that fits and no less-transmitted item that still fits is waiting; C10_out_sorted) about a model of queue.go, tied to the code by a "
                     "differential run with a tree snapshot after every call."),
         level_note="Trusted: Lean kernel; model=code beyond sampled sequences; btree semantics; float log10 in retransmitLimit; harness/driver.",
         explanation="conservation/invariants by induction over operation lists; get loop by a fuel-indexed induction principle",
